@@ -13,6 +13,7 @@ import (
 	"time"
 
 	eventbus "github.com/jilio/ebu"
+	"verif/busmodel"
 	"verif/storekit"
 	"verif/vkit"
 )
@@ -46,6 +47,9 @@ type Case struct {
 	Pubs     []Pub `json:"pubs"`
 	Store    bool  `json:"store"`
 	Nested   bool  `json:"nested,omitempty"` // the first sync handler publishes a nested event
+	// Ambient: further bus options that must not change what observability
+	// sees (hooks, persistence timeout of an hour, error handlers, batch size).
+	Ambient int `json:"ambient,omitempty"`
 }
 
 // truth is what really happened, counted by the harness itself.
@@ -83,6 +87,7 @@ func workload(c *Case, obs eventbus.Observability, ctxCheck func(ctx context.Con
 		opts = append(opts, eventbus.WithStore(st))
 	}
 	opts = append(opts, eventbus.WithObservability(obs), eventbus.WithPanicHandler(func(any, any2, any) {}))
+	opts = append(opts, busmodel.Ambient(c.Ambient&^(busmodel.AmbObs|busmodel.AmbStore|busmodel.AmbPanicHandler))...)
 	bus := eventbus.New(opts...)
 
 	var nestedDone atomic.Bool
